@@ -75,6 +75,32 @@ type envEntry struct {
 // fmt.Sprintf("%s=...", key, ...) expression.
 func (p *Prog) envKeyOf(f *Func, e ast.Expr) string {
 	info := f.Pkg.TypesInfo
+	// "KEY=" + value, key + "=" + value: the constant prefix up to the first '='
+	if be, isBin := ast.Unparen(p.Deref(f, e)).(*ast.BinaryExpr); isBin && be.Op == token.ADD {
+		ops := concatOperands(be)
+		prefix := ""
+		for i, op := range ops {
+			if sv, isC := constString(info, op); isC {
+				prefix += sv
+				if j := strings.Index(prefix, "="); j >= 0 {
+					if i == 0 || prefix[:j] != "" {
+						return prefix[:j]
+					}
+					return ""
+				}
+				continue
+			}
+			if i == 0 {
+				if fv := SelField(info, op); fv != nil && fv.Name() == "MagicCookieKey" && len(ops) > 1 {
+					if sv, isC := constString(info, ops[1]); isC && strings.HasPrefix(sv, "=") {
+						return "<cookie>"
+					}
+				}
+			}
+			return ""
+		}
+		return ""
+	}
 	call, ok := ast.Unparen(p.Deref(f, e)).(*ast.CallExpr)
 	if !ok {
 		// a string variable with several definitions of which exactly one is
@@ -151,6 +177,15 @@ func (p *Prog) envKeyOf(f *Func, e ast.Expr) string {
 	return k
 }
 
+// concatOperands flattens a left-nested chain of string additions.
+func concatOperands(e ast.Expr) []ast.Expr {
+	e = ast.Unparen(e)
+	if be, ok := e.(*ast.BinaryExpr); ok && be.Op == token.ADD {
+		return append(concatOperands(be.X), concatOperands(be.Y)...)
+	}
+	return []ast.Expr{e}
+}
+
 // R-TABLE/env — the launch environment is determined by the client config and
 // agrees with what the server reads.
 func ruleEnv(c *Ctx) {
@@ -209,6 +244,7 @@ func ruleEnv(c *Ctx) {
 	var entries []envEntry
 	var envSlice *types.Var // the intermediate slice variable
 	var hostNode *Node
+	var hostGuardNode *Node // where the condition of the inheritance is decided, if not at hostNode
 	var hostExpr ast.Expr
 	var envSpliceNode *Node
 	hostIntoSlice := false // the host environment is appended to the control-variable slice itself
@@ -227,7 +263,7 @@ func ruleEnv(c *Ctx) {
 	var aliasBack *Node // the node that stores such a local back into cmd.Env
 	backNode := map[types.Object]*Node{}
 	{
-		fromEnv, back, other := map[types.Object]int{}, map[types.Object]int{}, map[types.Object]int{}
+		fromEnv, back, other, extended := map[types.Object]int{}, map[types.Object]int{}, map[types.Object]int{}, map[types.Object]int{}
 		for _, n := range g.Nodes {
 			a, ok := n.Ast.(*ast.AssignStmt)
 			if !ok || len(a.Lhs) != len(a.Rhs) {
@@ -239,7 +275,14 @@ func ruleEnv(c *Ctx) {
 					if SelField(info, r) == envF {
 						fromEnv[v]++
 					} else if call, isC := r.(*ast.CallExpr); isC && p.CalleeName(f, call) == "builtin.append" && len(call.Args) >= 1 && identObj(info, call.Args[0]) == types.Object(v) {
-						// an extension of itself
+						// an extension of itself; env = append(env, cmd.Env...) on a
+						// slice that was only made so far is the binding to cmd.Env
+						if len(call.Args) == 2 && call.Ellipsis.IsValid() && SelField(info, ast.Unparen(call.Args[1])) == envF && extended[v] == 0 {
+							fromEnv[v]++
+						}
+						extended[v]++
+					} else if call, isC := r.(*ast.CallExpr); isC && p.CalleeName(f, call) == "builtin.make" && extended[v] == 0 {
+						// a pre-sized, still empty slice
 					} else {
 						other[v]++
 					}
@@ -248,6 +291,13 @@ func ruleEnv(c *Ctx) {
 					if v, ok := identObj(info, r).(*types.Var); ok && !v.IsField() {
 						back[v]++
 						backNode[v] = n
+					}
+					// cmd.Env = append(env, more...): stored back with a last extension
+					if call, isC := r.(*ast.CallExpr); isC && p.CalleeName(f, call) == "builtin.append" && len(call.Args) >= 1 {
+						if v, ok := identObj(info, call.Args[0]).(*types.Var); ok && !v.IsField() {
+							back[v]++
+							backNode[v] = n
+						}
 					}
 				}
 			}
@@ -295,6 +345,9 @@ func ruleEnv(c *Ctx) {
 				}
 				if call.Ellipsis.IsValid() {
 					src := ast.Unparen(call.Args[1])
+					if toCmdEnv && SelField(info, src) == envF {
+						continue // the command's own environment, first
+					}
 					if toEnvSlice && !toCmdEnv && len(call.Args) == 2 && identObj(info, src) == types.Object(envSlice) && identObj(info, call.Args[0]) != types.Object(envSlice) {
 						// env = append(hostEnv(), env...): the host environment is put in
 						// front of the control variables collected so far
@@ -309,6 +362,27 @@ func ruleEnv(c *Ctx) {
 					// inherited host environment
 					hostNode, hostExpr = n, src
 					hostIntoSlice = toEnvSlice && !toCmdEnv
+					// a local that is nil unless one assignment gave it the host
+					// environment: that assignment carries the condition
+					if hv, isV := identObj(info, src).(*types.Var); isV && !hv.IsField() {
+						var defs []*Node
+						var defExpr ast.Expr
+						for _, dn := range g.Nodes {
+							da, isAs := dn.Ast.(*ast.AssignStmt)
+							if !isAs || len(da.Lhs) != len(da.Rhs) {
+								continue
+							}
+							for di, dl := range da.Lhs {
+								if identObj(info, dl) == types.Object(hv) && !isNilIdent(info, da.Rhs[di]) {
+									defs = append(defs, dn)
+									defExpr = ast.Unparen(da.Rhs[di])
+								}
+							}
+						}
+						if len(defs) == 1 {
+							hostGuardNode, hostExpr = defs[0], defExpr
+						}
+					}
 					continue
 				}
 				addElems(n, call.Args[1:], toEnvSlice)
@@ -407,7 +481,11 @@ func ruleEnv(c *Ctx) {
 	if hostNode == nil {
 		c.R.Violate("R-TABLE/env", p.Pos(f.Node()), f.Name, "host environment", "the host environment is never appended to cmd.Env", nil)
 	} else {
-		gs := relevant(p.featureGuards(f, hostNode))
+		gn := hostNode
+		if hostGuardNode != nil && len(relevant(p.featureGuards(f, hostNode))) == 0 {
+			gn = hostGuardNode
+		}
+		gs := relevant(p.featureGuards(f, gn))
 		if strings.Join(gs, ",") == "ClientConfig.SkipHostEnv=false" {
 			c.R.Hold("R-TABLE/env", p.Pos(hostNode.Ast), f.Name, "host environment", "appended exactly when SkipHostEnv is false", true)
 		} else {
@@ -627,7 +705,24 @@ func (p *Prog) envVersions(c *Ctx, f *Func) {
 	sepOK := false
 	for _, call := range f.Calls() {
 		if p.CalleeName(f, call) == "strings.Join" && len(call.Args) == 2 {
-			if par, ok := p.Parent(call).(*ast.CallExpr); ok && strings.HasPrefix(p.envKeyOf(f, par), "PLUGIN_PROTOCOL_VERSIONS") {
+			var holder ast.Expr
+			if par, ok := p.Parent(call).(*ast.CallExpr); ok {
+				holder = par
+			} else if be, ok := p.Parent(call).(*ast.BinaryExpr); ok && be.Op == token.ADD {
+				// "PLUGIN_PROTOCOL_VERSIONS=" + strings.Join(...): the outermost addition
+				var top ast.Expr = be
+				for {
+					pb, isB := p.Parent(top).(*ast.BinaryExpr)
+					if !isB || pb.Op != token.ADD {
+						break
+					}
+					top = pb
+				}
+				if ops := concatOperands(top); len(ops) == 2 && ast.Unparen(ops[1]) == ast.Expr(call) {
+					holder = top
+				}
+			}
+			if holder != nil && p.envKeyOf(f, holder) == "PLUGIN_PROTOCOL_VERSIONS" {
 				joined, _ = identObj(info, call.Args[0]).(*types.Var)
 				// a plain copy of the list that was built (left by helper inlining)
 				for i := 0; i < 3 && joined != nil; i++ {
